@@ -3,6 +3,7 @@
   Property theorems only; lemmas live in Proofs/C13.lean.
 -/
 import CspuzModel.Proofs.C13
+import CspuzModel.Proofs.C13Nested
 namespace Cspuz.C13
 open Cspuz Cspuz.Spec
 
@@ -35,5 +36,47 @@ example :
 
 example : specGetitem (toRows [0,1,2,3,4,5,6,7,8,9,10,11] 3 4) 3 4
       (.pair (.idx 0) (.slice (some 10) none (some (-1)))) = .ok (.arr1 [3,2,1,0]) := by decide
+
+/-- The nested-list constructor `Array2D(rows)` (`shape=None`: `_infer_shape` + `_flatten`): for a
+non-empty rectangular list of rows the constructed array has shape `(len(rows), len(rows[0]))`, its
+buffer is the row-major concatenation of the rows, and its equivalent list of lists (`toRows`) IS
+`rows` — so `C13_getitem` applies to it; the constructor raises `ValueError` exactly when there is no
+row or some row's length differs from the first row's.  (Rows that are not iterable raise
+`TypeError` in Python; out of scope, rows are lists by typing.) -/
+def statement_nested : Prop :=
+  ∀ (α : Type) (rows : List (List α)),
+    (rows ≠ [] → (∀ r ∈ rows, r.length = (rows.headD []).length) →
+        ∃ data, ofNested rows = .ok (rows.length, (rows.headD []).length, data) ∧
+          data = rows.flatten ∧
+          data.length = rows.length * (rows.headD []).length ∧
+          toRows data rows.length (rows.headD []).length = rows) ∧
+    (rows = [] ∨ (∃ r ∈ rows, r.length ≠ (rows.headD []).length) →
+        ofNested rows = .error .valueError)
+
+theorem C13_nested : statement_nested := Cspuz.Proofs.C13Nested.ofNested_spec
+
+/-- Corollary: indexing the array constructed from a non-empty rectangular nested list `rows` with
+any key returns exactly what per-axis Python list indexing selects from `rows` itself (same
+elements, order, kind, shape, exception). -/
+def statement_nested_getitem : Prop :=
+  ∀ (α : Type) (rows : List (List α)) (key : Key2),
+    rows ≠ [] → (∀ r ∈ rows, r.length = (rows.headD []).length) →
+    ∃ h w data, ofNested rows = .ok (h, w, data) ∧ h = rows.length ∧ w = (rows.headD []).length ∧
+      getitem2D data h w key = specGetitem rows h w key
+
+theorem C13_nested_getitem : statement_nested_getitem := Cspuz.Proofs.C13Nested.ofNested_getitem
+
+/-- Non-vacuity of the nested constructor: a 2×3 nested list, no rows, jagged (short / long row),
+two empty rows (2×0), and indexing the constructed 2×3 array with a reversed column slice. -/
+example : ofNested [[10, 11, 12], [20, 21, 22]] = .ok (2, 3, [10, 11, 12, 20, 21, 22]) := by decide
+example : ofNested ([] : List (List Nat)) = .error .valueError := by decide
+example : ofNested [[1, 2], [3]] = .error .valueError := by decide
+example : ofNested [[1, 2], [3, 4, 5]] = .error .valueError := by decide
+example : ofNested ([[], []] : List (List Nat)) = .ok (2, 0, []) := by decide
+example : toRows [10, 11, 12, 20, 21, 22] 2 3 = [[10, 11, 12], [20, 21, 22]] := by decide
+example : specGetitem [[10, 11, 12], [20, 21, 22]] 2 3 (.pair (.idx (-1)) (.slice none none (some (-1))))
+      = .ok (.arr1 [22, 21, 20]) := by decide
+example : getitem2D [10, 11, 12, 20, 21, 22] 2 3 (.pair (.idx (-1)) (.slice none none (some (-1))))
+      = .ok (.arr1 [22, 21, 20]) := by decide
 
 end Cspuz.C13
